@@ -15,7 +15,7 @@ PROPS = "PROPERTIES C18_SourceUnchanged C18_OwnerOnlyAfterOk C18_FailedRestoreLe
 
 def consts(**kw):
     c = {"NP": 2, "Vals": {1, 2}, "MaxPrep": 4, "MaxMid": 0, "MaxRace": 1, "MaxBackups": 1, "MaxFiles": 3,
-         "Cuts": ALL_CUTS, "Missing": True, "Modes": ['"restore"', '"import"'], "Dev": []}
+         "Cuts": ALL_CUTS, "Missing": True, "Modes": ['"restore"', '"import"'], "SnapFails": ['"disabled"', '"io"'], "Dev": []}
     c.update(kw)
     return c
 
@@ -27,7 +27,9 @@ def classify(b):
         a = s["a"]
         if a == "SrcMissing" and cls is None:
             cls, cut = "missing", "missing"
-        if a == "BackupBegin":
+        if a == "BackupBeginFail" and cut == "none":
+            cut = "snapfail-" + s["x"]
+        if a in ("BackupBegin", "BackupBeginFail"):
             rounds += 1
             if s["v"] > 0:
                 since = 1
@@ -87,7 +89,7 @@ def model_checks(ctx, sd):
     ctx.tlc_check(sd, "CopyShard", "MC2.cfg", workers=8, timeout=ctx.pick(600, 1500))
     # 3. negative controls: each deviation of the code as found violates its property in the model
     for dev, inv in (("eofOk", "C18_CopyEqualsSomeStateInWindow"), ("noTomb", "C18_CopyEqualsSomeStateInWindow"),
-                     ("skipCache", "C18_CopyEqualsSomeStateInWindow")):
+                     ("skipCache", "C18_CopyEqualsSomeStateInWindow"), ("snapFailOk", "C18_CopyEqualsSomeStateInWindow")):
         ctx.write_cfg(sd, "MCd.cfg", "Spec", consts(MaxPrep=3, MaxRace=0, Dev=['"%s"' % dev], Modes=['"restore"']), INV, "Bounded")
         r = ctx.tlc_check(sd, "CopyShard", "MCd.cfg", workers=4, timeout=600, expect_ok=False)
         if not any(inv in v for v in r["violated"]):
@@ -97,7 +99,7 @@ def model_checks(ctx, sd):
     if not r["violated"]:
         raise Infra("negative control: eofOk does not violate C18_FailedCopyNotAdvertised")
     if not q:
-        for probe, kw in (("Probe_OwnerAdded", {}), ("Probe_TombShipped", {}), ("Probe_RaceWindow", {}), ("Probe_CutFailed", {}),
+        for probe, kw in (("Probe_OwnerAdded", {}), ("Probe_TombShipped", {}), ("Probe_RaceWindow", {}), ("Probe_CutFailed", {}), ("Probe_SnapFailRefused", {}),
                           ("Probe_ChainRound2", dict(MaxPrep=2, MaxMid=2, MaxBackups=2, MaxRace=0, Cuts=[], Missing=False, Modes=['"restore"']))):
             ctx.write_cfg(sd, "MCp.cfg", "Spec", consts(MaxPrep=3, **kw) if "MaxPrep" not in kw else consts(**kw), [probe], "Bounded")
             r = ctx.tlc_check(sd, "CopyShard", "MCp.cfg", workers=4, timeout=600, expect_ok=False)
@@ -177,7 +179,7 @@ def run(ctx):
         store += generate(ctx, sd, "store", n, MaxPrep=mp, MaxBackups=2, Cuts=[], Missing=False, Modes=['"restore"'], MaxRace=1)
     copy = []
     for mp in ctx.pick((4 + ctx.seed % 2,), (2, 4, 6)):
-        copy += generate(ctx, sd, "copy", n, MaxPrep=mp, MaxRace=0, Missing=False, GenReqAt=ctx.pick([0, 2], [0]))
+        copy += generate(ctx, sd, "copy", n + n // 2, MaxPrep=mp, MaxRace=0, Missing=False, GenReqAt=ctx.pick([0, 2], [0]))
     copy += generate(ctx, sd, "copy", 20, MaxPrep=1, MaxRace=0, Missing=True)
     sel_store, st1 = select(store, per, rnd, ctx.pick(90, 600))
     sel_copy, st2 = select(copy, per, rnd, ctx.pick(90, 600))
@@ -187,7 +189,7 @@ def run(ctx):
     if need - have:
         raise Infra("generated scenarios miss content classes %s" % sorted(need - have))
     havecut = {classify(b)[1] for b in sel_copy}
-    if {"beforeFirst", "midFile", "boundary", "beforeTrailer", "missing", "none"} - havecut:
+    if {"beforeFirst", "midFile", "boundary", "beforeTrailer", "missing", "none", "snapfail-disabled", "snapfail-io"} - havecut:
         raise Infra("generated scenarios miss faults: have %s" % sorted(havecut))
 
     recs, out, rc = store_replay(sel_store + sel_copy, "replay")
@@ -214,10 +216,11 @@ def run(ctx):
         done_n2 = ctx.process(recs, out, rc, "TestVerifCopyShardNet", lambda rp: rp.get("sig") in ok)
         ctx.cov["traces_validated_against_impl"] += done_n2.get("completed", 0)
     extra_net = {k: done_n.get(k) for k in ("behaviours", "completed", "copies", "http_ok", "http_failed", "advertised", "held", "cuts_done",
-                                            "classes", "cuts", "source_tmp_leftovers", "signatures")}
+                                            "classes", "cuts", "source_tmp_leftovers", "snapshot_faults", "signatures")}
     extra = {"network_level": extra_net,
              "store_level": {k: done.get(k) for k in ("behaviours", "steps", "backups", "restores", "restores_ok", "restores_failed",
-                                                      "judged", "not_judged", "held", "race_writes", "cuts", "reopens", "classes", "signatures")},
+                                                      "judged", "not_judged", "held", "race_writes", "cuts", "reopens", "source_reopens", "snapshot_faults",
+                                                      "snapshot_faults_backup_went_on", "classes", "signatures")},
              "race_rounds": done_r.get("rounds", 0), "race_distinct_prefixes": done_r.get("distinct_prefixes", 0),
              "generated": {"store": len(store), "copy": len(copy)}}
     return ctx.finish("model_checking", extra, assumptions=[
